@@ -203,19 +203,25 @@ contract('IOManager.read',
          at_return={0: [('C06', 'fifo-from-matching-key', MATCH('result[1]', 'result[2]'))],
                     1: [('C06', 'fifo-from-matching-key', MATCH('result[1]', 'result[2]'))],
                     2: [('C06', 'direct-delivery-only-when-nothing-parked', 'not ' + PEND(STORE))]},
+         # rely (C06): other readers park packets for this stream only while THEY hold the transport lock, and nobody else consumes this
+         # stream's parked packets (one reader per stream).  So "is a packet parked for me" is stable exactly while this reader holds
+         # the transport lock; everything else in the store may change whenever the store lock is not held.
+         interference={'transport': dict(props=['C06'], havoc=['self._packet_store._dict'], stable=[]),
+                       'store': dict(props=['C06'], havoc=['self._packet_store._dict'], stable=[('G.held_transport', PEND(STORE))])},
          call_asserts={
+             'IOManager._read_packet_from_device': [('C06', 'wire-is-read-only-when-nothing-is-parked-for-this-stream', 'not ' + PEND(STORE))],
              'Store.find': STORE_OWNED, 'Store.find_allow_zeros': STORE_OWNED, 'Store.get': STORE_OWNED,
              'Store.put': STORE_OWNED + [('C06', 'parks-the-foreign-packet-unchanged-under-its-own-key',
                                           '_arg_arg0 == arg0 and _arg_arg1 == arg1 and _arg_cmd == cmd and _arg_data == data and not '
                                           + MATCH('arg0', 'arg1'))],
              'Store.clear': STORE_OWNED + [('C06', 'forgets-only-own-closed-stream',
                                             '_arg_arg0 == arg0 and _arg_arg1 == arg1 and cmd == CLSE and ' + MATCH('arg0', 'arg1'))]},
-         loops={0: dict(invariant=STORE_LOOP_INV + ['G.now == old(G.now) and G.cpu == old(G.cpu) and G.rpos == old(G.rpos)']),
-                1: dict(invariant=[('C06,C11,C12', UNLOCKED),
+         loops={('while arg0_arg1', 0): dict(invariant=STORE_LOOP_INV + ['G.now == old(G.now) and G.cpu == old(G.cpu) and G.rpos == old(G.rpos)']),
+                'while True': dict(invariant=[('C06,C11,C12', UNLOCKED),
                                    ('C11,C06', 'G.rpos >= old(G.rpos) and G.rpos <= len(G.dev) and G.rpos >= 0'),
                                    ('C11', 'G.now - start <= %s and G.now >= start and start >= old(G.now)' % R),
                                    ('C11', 'start - old(G.now) <= G.cpu - old(G.cpu) and G.cpu >= old(G.cpu)')]),
-                2: dict(invariant=STORE_LOOP_INV)},
+                'while arg0_arg1': dict(invariant=STORE_LOOP_INV)},
          doc='the next packet for this stream: parked packets first (FIFO per key), then the wire; foreign packets are parked, '
              'matching packets with an unexpected command are consumed and discarded')
 
